@@ -974,11 +974,16 @@ where
             // So we handle TurnUndead here, otherwise the nodes will be
             // spamming each other with this message until enough time passes
             // that foca forgets the down member (`Config::remove_down_after`)
+            let mut notify_sender = self.config.notify_down_members;
             if message == Message::TurnUndead {
                 self.handle_self_update(Incarnation::default(), State::Down, &mut runtime)?;
+                // Unless we've just switched to a renewed identity, replying
+                // would make two members that consider each other down bounce
+                // TurnUndead back and forth
+                notify_sender = notify_sender && self.connection_state != ConnectionState::Undead;
             }
 
-            if self.config.notify_down_members {
+            if notify_sender {
                 self.send_message(src, Message::TurnUndead, runtime)?;
             }
 
